@@ -38,7 +38,7 @@ fn gen_tree_case(rng: &mut Rng, thorough: bool) -> String {
         rng.chance(1, 3) as u8,
         rng.chance(1, 6) as u8,
         crlf as u8,
-        if thorough { 6 } else { 3 }
+        if thorough { 6 } else { 2 }
     )
 }
 
@@ -552,7 +552,7 @@ fn main() {
     let mut rep = Report::new(
         "C08",
         "tree: generated trees of 0-40 files (0-4000 lines each, match density 0-90%, up to 3 directory levels, optional slow \
-         --pre on a third of the files, optional CRLF files with --crlf) searched with -j1 once and -jN (N in 2..16) 3x (thorough 6x) \
+         --pre on a third of the files, optional CRLF files with --crlf) searched with -j1 once and -jN (N in 2..16) 2x (thorough 6x) \
          in modes no-heading, no-heading -C1, heading, heading -C1, -o, -c, -l, --json, --files; sort: --sort/--sortr path with -jN \
          vs -j1; nulldata: the two-file --null-data -C1 witness. Non-trivial: at least two non-empty blocks. Distinct by case text. \
          JSON blocks are compared after removing the elapsed-time fields and the summary line.",
@@ -566,7 +566,7 @@ fn main() {
     }
     if args.replay.is_none() {
         let mut rng = Rng::new(args.seed);
-        let n = args.cases.unwrap_or(if args.thorough { 900 } else { 110 });
+        let n = args.cases.unwrap_or(if args.thorough { 900 } else { 64 });
         for i in 0..n {
             let case = if i % 8 == 7 {
                 format!("sort seed={} mode={} files={} n={} kind={}", rng.below(1 << 30), rng.pick(MODES), rng.range(2, 30), rng.range(2, 16),
